@@ -54,6 +54,8 @@ THEOREMS = [
     "Lena.C01.mkBranch_error",
     "Lena.C01.accFillQ_noFloat",
     "Lena.C01.accComputeQ_noFloat",
+    "Lena.C01.source_construction_consumes_nothing",
+    "Lena.C01.source_one_pass",
 ]
 TRUSTED = [
     "Lean 4.33.0 kernel; axioms limited to propext, Classical.choice, Quot.sound (audited by #print axioms on every run)",
@@ -89,8 +91,11 @@ ASSUMPTIONS = [
     "Python attribute lookup (hasattr/callable/isinstance) is represented by capability flags read from the real objects",
 ]
 RULE = ("exhaustive: capability flags (run, __call__, fill, compute, _has_no_data, __iter__, fill_into, _can_break_flow, "
-        "Split) of every vocabulary kind and of all 108 synthetic classes (run/fill/compute in {absent, non-callable, "
-        "method} x callable x _has_no_data), each of them bare and wrapped in adapters.Run as the only element, between "
+        "request, Split) of every vocabulary kind and of all 108 synthetic classes (run/fill/compute in {absent, non-callable, "
+        "method} x callable x _has_no_data) x request in {absent, non-callable, method} (plus a seeded sample of the product "
+        "with fill_into, reset, alter_sequence in {absent, non-callable, method}); the first element of a Source as "
+        "generator function, container, and one-pass iterator OBJECT (generator object - also one that raises -, "
+        "iter(list), map, islice) x 3 flows x 7 tails x every cut point; each synthetic class bare and wrapped in adapters.Run as the only element, between "
         "two elements of a Sequence (4 groupings), as first element and in the tail of a Source (every cut point), and "
         "inside a Sequence that is the first element of a Source; Source(); all ordered pairs of the 51 representative "
         "elements (incl. RunIf/Split around Count and accumulators, Split with fill_compute branches, Run(el, run=...), "
